@@ -409,3 +409,24 @@ func ruleNum(s string) int {
 	}
 	return n
 }
+
+// Try evaluates the guarded-sink question without recording an obligation.
+func (c *Ctx) Try(fn *ssa.Function, sink ssa.Instruction, clauses []Clause, opt *GOpt) bool {
+	if opt == nil {
+		opt = &GOpt{}
+	}
+	for _, cl := range clauses {
+		n := 0
+		for _, a := range cl {
+			n += CountAtomEdges(fn, a)
+		}
+		if n == 0 {
+			return false
+		}
+		q := ReachQ{Fn: fn, From: opt.From, Sink: SinkIs(sink), CutEdge: OrCutEdges(AtomEdges(cl...), opt.CutEdge), CutInstr: opt.CutInstr}
+		if q.Run().Found {
+			return false
+		}
+	}
+	return true
+}
